@@ -40,8 +40,8 @@ Init0 == [tid |-> "none", line |-> 0, maxsize |-> 0, pool |-> 0, door |-> 0, loa
           mp |-> [k \in KeyDom |-> 0], en |-> <<>>, pc |-> <<>>, lin |-> <<>>, pn |-> <<>>,
           now |-> 0, closed |-> FALSE, closedDone |-> FALSE, press |-> 0,
           sent |-> <<>>, appl |-> <<>>, psent |-> <<>>, owes |-> <<>>, need |-> <<>>,
-          gets |-> 0, hits |-> 0, lp |-> [k \in KeyDom |-> "none"], lrun |-> [k \in KeyDom |-> 0], lfail |-> <<>>, rv |-> <<>>, rdirty |-> <<>>, pl |-> <<>>,
-          lastTick |-> -1, stalled |-> FALSE, heldAcc |-> 0, thresh |-> 28610, nsnap |-> 0, nnotif |-> 0, nevents |-> 0, viol |-> {}, traces |-> 0, hangs |-> 0,
+          gets |-> 0, hits |-> 0, lp |-> [k \in KeyDom |-> "none"], lrun |-> [k \in KeyDom |-> 0], lfail |-> <<>>, lcur |-> [k \in KeyDom |-> {}], lmine |-> <<>>, rv |-> <<>>, rdirty |-> <<>>, pl |-> <<>>,
+          lastTick |-> -1, stalled |-> FALSE, heldAcc |-> 0, thresh |-> 28610, tick |-> 1024, nsnap |-> 0, nnotif |-> 0, nevents |-> 0, viol |-> {}, traces |-> 0, hangs |-> 0,
           stuck |-> 0, skipped |-> 0]
 
 V(s, prop, kind) ==
@@ -72,7 +72,7 @@ ClearLp(s, p, k) == IF s.lp[k] = p THEN [s EXCEPT !.lp = [s.lp EXCEPT ![k] = "no
 
 DoReset(s, e) ==
   [Init0 EXCEPT !.tid = e.id, !.maxsize = e.maxsize, !.pool = e.pool, !.door = e.door, !.loading = e.loading,
-                !.mode = e.mode, !.now = e.t, !.lastTick = e.t, !.thresh = e.thresh, !.viol = s.viol, !.traces = s.traces + 1, !.hangs = s.hangs,
+                !.mode = e.mode, !.now = e.t, !.lastTick = e.t, !.thresh = e.thresh, !.tick = e.tick, !.viol = s.viol, !.traces = s.traces + 1, !.hangs = s.hangs,
                 !.nsnap = s.nsnap, !.nnotif = s.nnotif, !.nevents = s.nevents, !.stuck = s.stuck, !.skipped = s.skipped]
 
 DoCall(s, e) ==
@@ -83,7 +83,8 @@ DoCall(s, e) ==
   IN CASE e.op = "wait" -> [s1 EXCEPT !.need = Put(s.need, e.p, s.sent)]
        [] e.op = "range" -> [s1 EXCEPT !.rv = Put(s.rv, e.p, <<>>), !.rdirty = Put(s1.rdirty, e.p, busy)]
        [] e.op = "len" -> [s1 EXCEPT !.rdirty = Put(s1.rdirty, e.p, busy)]
-       [] e.op = "lget" -> [s1 EXCEPT !.pl = Put(s.pl, e.p, {}), !.lfail = Put(s.lfail, e.p, FALSE)]
+       \* a caller may join a load that is already in flight (until its leader returns)
+       [] e.op = "lget" -> [s1 EXCEPT !.pl = Put(s.pl, e.p, s.lcur[e.k]), !.lfail = Put(s.lfail, e.p, FALSE)]
        [] e.op = "close" -> [s1 EXCEPT !.closed = TRUE]
        [] OTHER -> s1
 
@@ -204,7 +205,9 @@ DoRet(s, e) ==
                 b == Vif(a, ~hit /\ own /\ e.ok = 1 /\ e.v # li.v, "C13", "leader_returns_other_than_loaded")
                 d == Vif(b, ~hit /\ ~own /\ e.ok = 1 /\ e.v \notin Get(s.pl, e.p, {}), "C13", "follower_result_not_from_overlapping_load")
                 f == Vif(d, c.ac /\ e.n # 2, "C10", "loading_get_after_close_not_cache_closed_error")
+                mine == Get(s.lmine, e.p, <<0, 0>>)
             IN [f EXCEPT !.lp = [k \in KeyDom |-> IF s.lp[k] = e.p THEN "none" ELSE s.lp[k]],
+                         !.lcur = [s.lcur EXCEPT ![mine[1]] = @ \ {mine[2]}], !.lmine = Put(s.lmine, e.p, <<0, 0>>),
                          !.gets = s.gets + 1, !.hits = s.hits + (IF hit THEN 1 ELSE 0),
                          !.sent = IF e.p \in DOMAIN s.owes /\ s.owes[e.p] # <<>> THEN BagAdd(s.sent, s.owes[e.p]) ELSE s.sent,
                          !.owes = Put(s.owes, e.p, <<>>)]
@@ -291,6 +294,7 @@ DoLoad(s, e) ==
   LET waiting == {q \in DOMAIN s.pc : s.pc[q].op = "lget" /\ s.pc[q].k = e.k}
       s0 == Vif(s, s.lrun[e.k] > 0, "C13", "two_loader_invocations_running_for_one_key")
   IN [s0 EXCEPT !.lp = [s.lp EXCEPT ![e.k] = e.p], !.lrun = [s.lrun EXCEPT ![e.k] = @ + 1],
+               !.lcur = [s.lcur EXCEPT ![e.k] = @ \cup {e.v}], !.lmine = Put(s.lmine, e.p, <<e.k, e.v>>),
                !.lfail = Put(s.lfail, e.p, FALSE),
                !.pl = [q \in DOMAIN s.pl |-> IF q \in waiting THEN s.pl[q] \cup {e.v} ELSE s.pl[q]],
                !.lin = Put(s.lin, e.p, [NoLin EXCEPT !.kind = "load", !.v = e.v, !.cost = e.cost, !.ttl = e.ttl, !.t = e.t])]
@@ -333,7 +337,7 @@ DoSnap(s, e) ==
       \* C16 counters
       n == Vif(m, e.q = 1 /\ (e.hits # s.hits \/ e.hits + e.misses # s.gets), "C16", "hit_miss_counters_differ_from_calls")
       \* C04 seen from the store: after a tick at time T nothing resident is overdue by a finest tick
-      o == Vif(n, q /\ nopool /\ s.lastTick = e.t /\ \E i \in DOMAIN res : res[i][4] # 0 /\ (res[i][4] \div Tick1) < (e.t \div Tick1),
+      o == Vif(n, q /\ nopool /\ s.lastTick = e.t /\ \E i \in DOMAIN res : res[i][4] # 0 /\ (res[i][4] \div s.tick) < (e.t \div s.tick),
                "C04", "resident_entry_overdue_after_tick")
   IN IF q
      THEN [o EXCEPT !.nsnap = s.nsnap + 1,
